@@ -23,3 +23,16 @@ Example C04_nonvacuous :
   valid_at (Some 10) (Some 20) 15 = true /\ valid_at (Some 10) (Some 20) 9 = false /\
   valid_at (Some 10) (Some 20) 21 = false /\ valid_at None None 0 = true.
 Proof. repeat split. Qed.
+
+(* the instants at which a chain authorises form an interval: allowed at two instants, allowed in between
+   (only the time stage reads the clock); an expired token stays expired *)
+Theorem C04_allowed_instants_form_an_interval : forall ld i t1 t2 t, t1 <= t <= t2 ->
+  allowed t1 ld i = true -> allowed t2 ld i = true -> allowed t ld i = true.
+Proof. exact allowed_convex. Qed.
+Print Assumptions C04_allowed_instants_form_an_interval.
+Theorem C04_expired_stays_expired : forall nbf e t t', e < t -> t <= t' -> valid_at nbf (Some e) t' = false.
+Proof. exact expired_stays_expired. Qed.
+Print Assumptions C04_expired_stays_expired.
+Theorem C04_not_valid_before_not_before : forall n exp t t', t < n -> t' <= t -> valid_at (Some n) exp t' = false.
+Proof. exact not_yet_valid_before. Qed.
+Print Assumptions C04_not_valid_before_not_before.
